@@ -107,6 +107,7 @@ template <class F> static void trans(const std::string& op, const St& from, F&& 
    DynamicBitset d = make(from); std::string msg;
    int rc = guarded([&] { f(d); }, msg);
    if (vf::verbose()) { std::string m2; std::string after; guarded([&] { after = d.to_string(); }, m2); printf("  %s %s -> [%zu:%s] rc=%d %s\n", show(from.n, from.s).c_str(), op.c_str(), d.size(), after.c_str(), rc, msg.c_str()); }
+   { std::string fam = op.substr(0, op.find('#')); vf::outcome(fam.substr(0, 40) + (rc == 1 ? " throws" : " -> size " + std::to_string(d.size()))); }
    if (rc == 2) { viol("memory", msg); return; }
    if (rc == 1) { if (ex == RETURNS) viol("exception", "unexpected exception: " + msg); else { check_observers(d, from.s, from.n); } return; }   // a documented throw must leave the content alone
    if (ex == THROWS_OOR) { viol("exception", "documented std::out_of_range was not thrown"); return; }
